@@ -108,6 +108,79 @@ def evaluate(case):
         shutil.rmtree(wd, ignore_errors=True)
 
 
+def evaluate_huge(case):
+    """a file larger than 4 GiB made of holes (host sparse file), --pack-dir; sizes around 2^32, markers at 0, 2^31-1 and the end"""
+    import hashlib, subprocess
+    size, bs, comp = case["size"], case["bs"], case["comp"]
+    wd = tempfile.mkdtemp(prefix="h", dir=SCR)
+    label = "huge sparse file size=%d bs=%d comp=%s" % (size, bs, comp)
+    try:
+        src = os.path.join(wd, "src")
+        os.makedirs(src)
+        marks = [(0, b"HEAD"), ((1 << 31) - 2, b"MID!"), (size - 3, b"END")]
+        fn = os.path.join(src, "huge")
+        with open(fn, "wb") as f:
+            f.truncate(size)
+            for off, m in marks:
+                f.seek(off)
+                f.write(m)
+        open(os.path.join(src, "small"), "wb").write(b"small file\n")
+        # expected digest, streamed
+        h = hashlib.sha256()
+        zero = bytes(1 << 20)
+        pos = 0
+        for off, m in sorted(marks):
+            while pos < off:
+                n = min(len(zero), off - pos)
+                h.update(zero[:n])
+                pos += n
+            h.update(m)
+            pos += len(m)
+        while pos < size:
+            n = min(len(zero), size - pos)
+            h.update(zero[:n])
+            pos += n
+        want = h.hexdigest()
+        img = os.path.join(wd, "out.sqfs")
+        argv = [packcheck.TOOLS["gensquashfs"], "-q", "-c", comp, "-b", str(bs), "-D", src, img]
+        r = run_tool(argv, timeout=900)
+
+        def viol(fp, what):
+            return dict(status="violation", fp=fp, what=label + "\n" + what, files={"case.json": json.dumps(dict(kind="huge", size=size, bs=bs, comp=comp))},
+                        replay_sh="python3 /verif/checks/C01.py --replay \"$PWD\"")
+        if r.timeout:
+            return viol("C01|hang|gensquashfs|huge", "gensquashfs did not finish in 900 s")
+        if r.crashed:
+            return viol("C01|crash|" + r.crash_fingerprint(), r.err.decode("latin1")[-2500:])
+        if r.rc != 0:
+            return viol("C01|refused-representable|huge", "exit %d: %s" % (r.rc, r.err.decode("latin1")[-500:]))
+        im, err = packcheck.decode(img, max_file_bytes=1 << 40)
+        if im is None:
+            return viol("C01|undecodable|huge", err)
+        n = im.tree.get(b"huge")
+        if n is None or n["size"] != size or n["sha"] != want:
+            return viol("C01|tree|content|huge", "decoded file: %s" % ({k: n[k] for k in ("size", "sha")} if n else None) + " expected size %d sha %s" % (size, want))
+        if im.violations:
+            return viol("C01|invalid-image|huge|" + im.violations[0][0], str(im.violations[:3]))
+        # tool view: rdsquashfs -c, streamed
+        p = subprocess.Popen([packcheck.TOOLS["rdsquashfs"], "-c", "huge", img], stdout=subprocess.PIPE, stderr=subprocess.PIPE, env=CLEAN_ENV)
+        h = hashlib.sha256()
+        total = 0
+        while True:
+            b = p.stdout.read(1 << 20)
+            if not b:
+                break
+            h.update(b)
+            total += len(b)
+        err = p.stderr.read()
+        rc = p.wait()
+        if rc != 0 or total != size or h.hexdigest() != want:
+            return viol("C01|rdsquashfs-cat|huge", "rdsquashfs -c huge: rc=%d, %d bytes (expected %d), digest %s\n%s" % (rc, total, size, "equal" if h.hexdigest() == want else "differs", err.decode("latin1")[-500:]))
+        return dict(status="ok", sha=sha_file(img))
+    finally:
+        shutil.rmtree(wd, ignore_errors=True)
+
+
 def compare_unpacked(exp, ud):
     import stat as st_
     bad = []
@@ -144,6 +217,10 @@ def main():
         SCR = sd
         tools = build.build_tools(build.variant("asan"), os.path.join(sd, "bin"), tools=["gensquashfs", "rdsquashfs"])
         packcheck.TOOLS.update(tools)
+        if cr.replay and os.path.exists(os.path.join(cr.replay, "case.json")) and json.load(open(os.path.join(cr.replay, "case.json"))).get("kind") == "huge":
+            c = json.load(open(os.path.join(cr.replay, "case.json")))
+            print(evaluate_huge(c))
+            return 1
         if cr.replay:
             argv = json.load(open(os.path.join(cr.replay, "argv.json")))
             case_dir = os.path.join(cr.replay, "case")
@@ -213,6 +290,19 @@ def main():
                         kern_bad.append((c["names"], r["kernel"]))
                 if len(cr.coverage["samples"]) < 5 and len(c["names"]) >= 2:
                     cr.sample({"kind": c["kind"], "templates": list(c["names"]), "cfg": c["cfg"], "mode": c["mode"], "image_sha256": r["sha"][:16]})
+        # files larger than 4 GiB via holes (thorough; one in quick): sizes around 2^32 x block sizes 128 KiB / 1 MiB
+        huge = [dict(size=(1 << 32) + 4097, bs=1 << 20, comp="zstd")] if quick else \
+            [dict(size=(1 << 32) + d, bs=bs, comp=comp) for d in (-1, 0, 1, 4097) for bs, comp in ((1 << 20, "zstd"), (131072, "gzip"))]
+        if not cr.expired():
+            for c, r in zip(huge, pmap(evaluate_huge, huge, procs=4)):
+                n_eval += 1
+                by_kind["huge-sparse"] = by_kind.get("huge-sparse", 0) + 1
+                if r["status"] == "violation":
+                    cr.violation(r["fp"], r["what"], files=r["files"], replay_sh=r.get("replay_sh"))
+                else:
+                    seen.add(r["sha"])
+        else:
+            cr.cap("deadline before the > 4 GiB cases")
         if not cr.coverage.get("caps_hit"):
             for lo, hi, what in ((65528, 65536, "64 KiB"), (8186, 8192, "8 KiB")):
                 missing = [x for x in range(lo, hi + 1) if x not in listing_sizes]
